@@ -558,6 +558,7 @@ out["dicts"] = dicts
 # ---- which property reads / writes which dict and which ctypes field (AST of the property functions)
 props = []
 fnopts = []
+modtrees = {}
 for cname, c in list(classes.items()):
     cls = None
     for m in mods:
@@ -574,6 +575,23 @@ for cname, c in list(classes.items()):
         is_getter = any(isinstance(d, ast.Name) and d.id == "property" for d in node.decorator_list)
         if not (is_setter or is_getter): continue
         names = {n.id for n in ast.walk(node) if isinstance(n, ast.Name)}
+        # a property may delegate to module-level helpers (e.g. _eos_type_value): what they use counts as used by the property
+        modtree = modtrees.get(cls.__module__)
+        if modtree is None:
+            try:
+                modtree = {f.name: f for f in ast.parse(inspect.getsource(sys.modules[cls.__module__])).body if isinstance(f, ast.FunctionDef)}
+            except Exception:
+                modtree = {}
+            modtrees[cls.__module__] = modtree
+        frontier, seenf = set(names), set()
+        for _ in range(4):
+            nxt = set()
+            for fn in frontier:
+                if fn in modtree and fn not in seenf:
+                    seenf.add(fn)
+                    nxt |= {n.id for n in ast.walk(modtree[fn]) if isinstance(n, ast.Name)}
+            names |= nxt
+            frontier = nxt
         used = sorted(n for n in names if n in dicts)
         selfattrs = sorted({n.attr for n in ast.walk(node) if isinstance(n, ast.Attribute) and isinstance(n.value, ast.Name) and n.value.id == "self"})
         if used:
